@@ -185,15 +185,37 @@ def if_then_expr(targ):
     raise KeyError('if_then')
 
 
+def _P(n): return ('P', 'vu::P<%d>' % n)
+
+
+def _chain(pairs, last=None):
+    e = last if last is not None else peg.FAILURE
+    for c, t in reversed(pairs): e = peg.if_then_else(c, ('seq', [t]), e)
+    return e
+
+
+# the chains of universe/u_equiv.cc as written there: if_then< C1, T1 >::else_if_then< C2, T2 >... [::else_then< E >] means
+# if_then_else< C1, T1, if_then_else< C2, T2, ... E / failure > > (contrib/if_then.hpp, doc/Contrib-and-Examples.md)
+CHAIN_SPECS = {
+    'vu::chain3': _chain([(_P(1), _P(2)), (_P(3), _P(4)), (_P(5), _P(6))]),
+    'vu::chain3e': _chain([(_P(1), _P(2)), (_P(3), _P(4)), (_P(5), _P(6))], ('seq', [_P(7)])),
+    'vu::chain2e': _chain([(_P(1), _P(2)), (_P(3), _P(4))], ('seq', [_P(5)])),
+    'vu::chain4': _chain([(_P(1), _P(2)), (_P(3), _P(4)), (_P(5), _P(6)), (_P(7), _P(8))]),
+}
+
+
 def compare(db, fn, maxq):
     """returns dict(histories, truncated, problems[(rule, msg, detail)], expr)"""
     cls = fn.get('cls') or {}
     rt = (cls.get('a') or [{}])[0]
-    pr = parse_rule(rt)
-    if pr is None: return None
-    name, ints, rules = pr
+    if rt.get('s') in CHAIN_SPECS:
+        name = 'if_then'; expr = CHAIN_SPECS[rt['s']]
+    else:
+        pr = parse_rule(rt)
+        if pr is None: return None
+        name, ints, rules = pr
+        expr = build(name, ints, rules)
     M = fn_mode(fn)
-    expr = build(name, ints, rules)
     n = 0; trunc = 0; probs = []
     for r in run_impl(db, fn, maxq):
         if r is None: trunc += 1; continue
